@@ -180,20 +180,49 @@ class Gen:
         return self.struct(kind[1], v, depth + 1)
 
     def struct(self, cname, v, depth=0, counts=None):
-        """counts: per active item the number of occurrences (top level); None -> random presence"""
+        """counts: per active item the number of occurrences (top level); None -> random presence.
+        A dispatched item (`by`) takes its tag and kind from its table under the value of its key item; the key
+        item's value is drawn from the table keys so that generated values stay inside the modelled domain."""
         items = self.s.active(cname, v)
+        key_for = {}                                  # index of a key item -> the dispatched item that uses it
+        for it in items:
+            if it.get('by'):
+                key_for[it['by']['ix']] = it
         fields = []
         for i, it in enumerate(items):
             if counts is not None:
                 n = counts[i]
             elif it['mult'] == 'Req':
                 n = 1
+            elif it['mult'] == 'Many1':
+                n = self.rng.choice([1, 1, 2, 3])
             elif depth >= self.max_depth:
                 n = 0
             elif it['mult'] == 'Opt':
                 n = 1 if self.rng.random() < 0.6 else 0
             else:
                 n = self.rng.choice([0, 1, 1, 2, 3])
+            if i in key_for and n:
+                table = key_for[i]['by']['table']
+                row = self.rot('key:%s.%s' % (cname, it['field']), table)
+                key = row[0]
+                val = ('P', 'PText', key[1]) if key[0] == 'text' else ('E', it['kind'][1], key[1])
+                fields.append((it, [val]))
+                continue
+            if it.get('by'):
+                kf = fields[it['by']['ix']][1] if it['by']['ix'] < len(fields) else []
+                row = None
+                if len(kf) == 1:
+                    kv = kf[0]
+                    key = ['text', kv[2]] if kv[0] == 'P' else ['enum', kv[2]]
+                    row = next((r for r in it['by']['table'] if r[0] == key), None)
+                if row is None:
+                    fields.append((it, []))          # no key (or a key outside the table): nothing can be encoded here
+                    continue
+                res = dict(it, tag=row[1], kind=list(row[2]))
+                res.pop('by')
+                fields.append((res, [self.value(tuple(row[2]), v, depth) for _ in range(n)]))
+                continue
             fields.append((it, [self.value(tuple(it['kind']), v, depth) for _ in range(n)]))
         return ('S', cname, fields)
 
@@ -202,7 +231,7 @@ class Gen:
         items when there are at most `exhaustive_limit` of them (2^8), structured + sampled otherwise; then
         capped to `budget` (structured ones first).  Repeated items take 0 / 1 / 3 elements."""
         items = self.s.active(cname, v)
-        free = [i for i, it in enumerate(items) if it['mult'] != 'Req']
+        free = [i for i, it in enumerate(items) if it['mult'] not in ('Req', 'Many1')]
         k = len(free)
         masks = []
         structured = [0, (1 << k) - 1] + [1 << j for j in range(k)] + [((1 << k) - 1) ^ (1 << j) for j in range(k)]
@@ -231,6 +260,8 @@ class Gen:
             for i, it in enumerate(items):
                 if it['mult'] == 'Req':
                     counts.append(1)
+                elif it['mult'] == 'Many1':
+                    counts.append(1 if (n + i) % 2 == 0 else 3)
                 else:
                     bit = (m >> free.index(i)) & 1
                     if it['mult'] == 'Opt':
